@@ -2,6 +2,7 @@ package mon
 
 import (
 	"fmt"
+	"github.com/xjslang/xjs/compiler"
 	"reflect"
 	"strings"
 
@@ -226,7 +227,14 @@ func checkParseContractCfg(t *fw.T, src string, label string, cfgOverride []Cfg)
 		for _, c := range cfgs {
 			c := c
 			t.Guard("compile error-free tree ("+c.String()+")", func() map[string]any { w := wit(); w["config"] = c.String(); return w }, func() {
-				res := c.Compile(po.Prog)
+				// every second group of cases compiles with this worker's long-lived Compiler values: "compiles in every
+				// configuration" holds for a compiler that has compiled other programs before
+				var res compiler.CompileResult
+				if (t.Index/16)%2 == 1 {
+					res = c.CompileReused(po.Prog)
+				} else {
+					res = c.Compile(po.Prog)
+				}
 				if c.Map && res.SourceMap == nil {
 					t.Violate("no-source-map", c.String(), "source map requested but nil", wit())
 				}
